@@ -203,10 +203,20 @@ func inbound(c *enum.Ctx, roots []*cell.Cell, o rboc.Options, tag string) {
 		return
 	}
 	c.Try("panic:inbound:"+tag, func() {
+		orig := append([]byte{}, b...)
 		got, err := tb.DeserializeBoc(b)
 		if err != nil {
 			c.Fail(fmt.Sprintf("inbound-rejected:%s:magic=%x", tag, o.Magic), "tongo rejects a conforming BOC (%+v): %v; bytes %x", o, err, trunc(b))
 			return
+		}
+		// the byte string belongs to the caller: parsing does not change it, and what the caller does with it afterwards
+		// (a reused read buffer) does not change the cells that were returned
+		if !bytes.Equal(b, orig) {
+			c.Fail("inbound-input-modified:"+tag, "DeserializeBoc changed its argument: %x became %x", trunc(orig), trunc(b))
+			return
+		}
+		for i := range b {
+			b[i] = ^b[i]
 		}
 		if len(got) != len(roots) {
 			c.Fail("inbound-roots:"+tag, "conforming BOC with %d roots parsed to %d roots (%+v)", len(roots), len(got), o)
@@ -340,6 +350,74 @@ func harnesses(r *fw.Run) []fw.HarnessSpec {
 		c.Sample(map[string]any{"dag": root.Describe(), "options": fmt.Sprintf("%+v", combo(oi))})
 		c.Label("repeated subtree: children %d placement %d opts=%+v", len(kids), place, combo(oi))
 		dagRoundTrip(c, root, oi, "repeated")
+	})
+
+	// serialise, change the cells, serialise again (through the same or another entry point): the second bag describes
+	// the tree as it is then - nothing learnt about a cell during the first call may be used for the changed cell
+	add("serialise-after-mutation", 0, func(c *enum.Ctx) {
+		entry := c.ChooseFree(4)
+		shape := c.ChooseFree(3)
+		oi := c.ChooseFree(8)
+		o := combo(oi)
+		c.Case([]byte(fmt.Sprintf("mutate/%d/%d/%d", entry, shape, oi)), true)
+		c.Sample(map[string]any{"entry_point": []string{"SerializeBoc", "ToBocCustom", "ToBocCustomWithHasher(new)", "ToBoc/SerializeBoc mixed"}[entry], "shape": shape, "options": fmt.Sprintf("%+v", o)})
+		c.Label("serialise, mutate, serialise: entry %d shape %d opts=%+v", entry, shape, o)
+		ser := func(t *tb.Cell, round int) ([]byte, error) {
+			switch entry {
+			case 0:
+				return tb.SerializeBoc(t, o.idx, o.crc, o.cache, 0)
+			case 1:
+				return t.ToBocCustom(o.idx, o.crc, o.cache, 0)
+			case 2:
+				return t.ToBocCustomWithHasher(tb.NewHasher(), o.idx, o.crc, o.cache, 0)
+			}
+			if round%2 == 0 {
+				return t.ToBocCustom(o.idx, o.crc, o.cache, 0)
+			}
+			return tb.SerializeBoc(t, o.idx, o.crc, o.cache, 0)
+		}
+		c.Try("panic:serialise-after-mutation", func() {
+			for round := 0; round < 6; round++ {
+				// two leaves that are equal (empty) at first
+				l1, l2 := tb.NewCell(), tb.NewCell()
+				mid := tb.NewCell()
+				_ = mid.WriteUint(uint64(0x40+round), 8)
+				_ = mid.AddRef(l2)
+				root := tb.NewCell()
+				_ = root.WriteUint(0x11, 8)
+				_ = root.AddRef(l1)
+				_ = root.AddRef(mid)
+				if _, err := ser(root, round); err != nil {
+					c.Fail("serialize-error:mutation", "first serialisation: %v", err)
+					return
+				}
+				switch shape {
+				case 0: // both leaves change, to different contents
+					_ = l1.WriteUint(0xAA, 8)
+					_ = l2.WriteUint(0xBB, 8)
+				case 1: // one leaf changes
+					_ = l2.WriteUint(0x5, 3)
+				case 2: // a leaf gains a child
+					ch := tb.NewCell()
+					_ = ch.WriteUint(0x77, 8)
+					_ = l1.AddRef(ch)
+				}
+				out, err := ser(root, round+1)
+				if err != nil {
+					c.Fail("serialize-error:mutation", "second serialisation: %v", err)
+					return
+				}
+				ref, err := conv.FromTongo(root)
+				if err != nil {
+					c.Fail("setup", "%v", err)
+					return
+				}
+				checkOwnOutput(c, ref, out, o, "after-mutation")
+				if c.Failed() {
+					return
+				}
+			}
+		})
 	})
 
 	add("single-cell-all-lengths", 0, func(c *enum.Ctx) {
